@@ -347,6 +347,24 @@ def replay (s : St) : List Undo → St × Option Err
 
 /-! ### operations -/
 
+/-- the three built-in kinds of boundary reaction -/
+inductive BType where
+  | exchange | demand | sink
+deriving DecidableEq, Repr
+
+/-- prefix, lower and upper bound `Model.add_boundary` uses for a built-in type (the `types` table) -/
+def BType.pre : BType → String
+  | .exchange => "EX"
+  | .demand => "DM"
+  | .sink => "SK"
+def BType.bounds (t : BType) (dlb dub : EB) : EB × EB :=
+  match t with
+  | .demand => (EB.zero, dub)
+  | _ => (dlb, dub)
+
+/-- the identifier of the boundary reaction of metabolite `m` -/
+def BType.rid (t : BType) (m : Id) : Id := t.pre ++ "_" ++ m
+
 inductive Op where
   | setLb (r : Id) (v : EB)
   | setUb (r : Id) (v : EB)
@@ -367,6 +385,7 @@ inductive Op where
   | setRule (r : Id) (rule : Option G)   -- reaction.gene_reaction_rule = "…" (the text parsed by `GPRM.fromString`), outside a context
   | removeRxns (rs : List Id) (orphans : Bool)   -- remove_reactions([…]): identifiers that are not in the model are skipped with a warning
   | imul (r : Id) (k : Rat)
+  | addBoundary (m : Id) (t : BType) (external : Bool) (dlb dub : EB)   -- model.add_boundary(metabolite, type); `external`: the metabolite sits in the external compartment; `dlb`, `dub`: the configured default bounds
   | observe                          -- calls that only look: `slim_optimize()`, `reaction.copy()`, `a + b` / `a - b` on reactions of the model
   | enter
   | exit
@@ -579,6 +598,18 @@ def apply (y : Sys) : Op → Sys × Option Err
     if !y.s.hasR r then (y, some .key)
     else if k = 0 then (y, some .type)                 -- outside the modelled fragment (never sent by the harness)
     else imul y r k
+  | .addBoundary m t external dlb dub =>
+    if !y.s.hasM m then (y, some .key)                          -- the metabolite is looked up in the model first
+    else if t = .exchange && !external then (y, some .value)     -- "The metabolite is not an external metabolite"
+    else if y.s.hasR (t.rid m) then (y, some .value)            -- "Boundary reaction … already exists"
+    else
+      -- Reaction(id, lower_bound, upper_bound); add_metabolites({metabolite: -1}); add_reactions([rxn])
+      let r := t.rid m
+      let lb := (t.bounds dlb dub).1
+      let ub := (t.bounds dlb dub).2
+      if EB.lt ub lb then (y, some .value)
+      else if decide (r ∈ y.s.univR) && freshNames y.s r then (addRxn y r lb ub [(m, -1)], none)
+      else (y, some .type)                                       -- outside the modelled fragment (never sent by the harness)
   | .observe => (y, none)
   | .enter => (enter y, none)
   | .exit => exit y
